@@ -245,6 +245,84 @@ impl Gen for Deep {
     }
 }
 
+// ----- types whose Serialize impl hands the serializer a string that only lives for the call: formatted into a buffer on
+// the stack (std's IP addresses, the hex digest below) or streamed through `collect_str`
+#[derive(Debug, Clone, PartialEq, Eq, PartialOrd, Ord)]
+pub struct Hex32([u8; 16]);
+impl Serialize for Hex32 {
+    fn serialize<S: serde::Serializer>(&self, s: S) -> Result<S::Ok, S::Error> {
+        let mut buf = [0u8; 32];
+        for (i, b) in self.0.iter().enumerate() {
+            buf[2 * i] = b"0123456789abcdef"[(b >> 4) as usize];
+            buf[2 * i + 1] = b"0123456789abcdef"[(b & 15) as usize];
+        }
+        s.serialize_str(std::str::from_utf8(&buf).unwrap())
+    }
+}
+impl<'de> Deserialize<'de> for Hex32 {
+    fn deserialize<D: serde::Deserializer<'de>>(d: D) -> Result<Self, D::Error> {
+        let s = String::deserialize(d)?;
+        let b = s.as_bytes();
+        if b.len() != 32 {
+            return Err(serde::de::Error::custom("hex digest of the wrong length"));
+        }
+        let mut out = [0u8; 16];
+        for i in 0..16 {
+            out[i] = u8::from_str_radix(&s[2 * i..2 * i + 2], 16).map_err(serde::de::Error::custom)?;
+        }
+        Ok(Hex32(out))
+    }
+}
+impl Gen for Hex32 {
+    fn gen(rng: &mut Rng, _d: usize) -> Self {
+        let mut b = [0u8; 16];
+        for x in b.iter_mut() {
+            *x = rng.below(256) as u8;
+        }
+        Hex32(b)
+    }
+    fn same(&self, o: &Self) -> bool { self == o }
+}
+#[derive(Debug, Clone, PartialEq)]
+pub struct Stamp(u64, u32);
+impl Serialize for Stamp {
+    fn serialize<S: serde::Serializer>(&self, s: S) -> Result<S::Ok, S::Error> {
+        s.collect_str(&format_args!("{:020}.{:09}", self.0, self.1))
+    }
+}
+impl<'de> Deserialize<'de> for Stamp {
+    fn deserialize<D: serde::Deserializer<'de>>(d: D) -> Result<Self, D::Error> {
+        let s = String::deserialize(d)?;
+        let (a, b) = s.split_once('.').ok_or_else(|| serde::de::Error::custom("no dot"))?;
+        Ok(Stamp(a.parse().map_err(serde::de::Error::custom)?, b.parse().map_err(serde::de::Error::custom)?))
+    }
+}
+impl Gen for Stamp {
+    fn gen(rng: &mut Rng, _d: usize) -> Self { Stamp(rng.next(), rng.below(1_000_000_000) as u32) }
+    fn same(&self, o: &Self) -> bool { self == o }
+}
+impl Gen for std::net::Ipv6Addr {
+    fn gen(rng: &mut Rng, _d: usize) -> Self {
+        // full-length addresses (39 characters) most of the time, compressible ones too
+        if rng.chance(1, 4) { std::net::Ipv6Addr::from((rng.next() as u128) << 64) } else { std::net::Ipv6Addr::from(((rng.next() as u128) << 64 | rng.next() as u128) | 0x1000_1000_1000_1000_1000_1000_1000_1000) }
+    }
+    fn same(&self, o: &Self) -> bool { self == o }
+}
+impl Gen for std::net::Ipv4Addr {
+    fn gen(rng: &mut Rng, _d: usize) -> Self { std::net::Ipv4Addr::from(rng.next() as u32) }
+    fn same(&self, o: &Self) -> bool { self == o }
+}
+impl Gen for std::net::SocketAddrV6 {
+    fn gen(rng: &mut Rng, d: usize) -> Self { std::net::SocketAddrV6::new(Gen::gen(rng, d), rng.below(65536) as u16, 0, 0) }
+    fn same(&self, o: &Self) -> bool { self == o }
+}
+#[derive(Serialize, Deserialize, Debug, Clone)]
+pub struct Peers { a: std::net::Ipv6Addr, b: std::net::Ipv6Addr, id: Hex32, prev: Hex32, at: Stamp, until: Stamp }
+impl Gen for Peers {
+    fn gen(rng: &mut Rng, d: usize) -> Self { Peers { a: Gen::gen(rng, d), b: Gen::gen(rng, d), id: Gen::gen(rng, d), prev: Gen::gen(rng, d), at: Gen::gen(rng, d), until: Gen::gen(rng, d) } }
+    fn same(&self, o: &Self) -> bool { self.a == o.a && self.b == o.b && self.id == o.id && self.prev == o.prev && self.at == o.at && self.until == o.until }
+}
+
 struct Eng {
     tera: Tera,
 }
@@ -377,6 +455,10 @@ pub fn run(cx: &mut Cx) {
         rt!(cx, rng, BTreeMap<String, i32>, BTreeMap<i8, String>, BTreeMap<i16, u8>, BTreeMap<i32, Vec<i32>>, BTreeMap<i64, bool>, BTreeMap<i128, u8>, BTreeMap<u8, i8>, BTreeMap<u16, char>, BTreeMap<u32, f64>, BTreeMap<u64, String>, BTreeMap<u128, ()>);
         rt!(cx, rng, BTreeMap<char, i32>, BTreeMap<bool, String>, HashMap<String, Named>, HashMap<u64, E>, HashMap<char, Option<i8>>, HashMap<bool, Vec<String>>, BTreeMap<String, BTreeMap<i32, Vec<Option<String>>>>, BTreeMap<UnitOnly, i32>);
         rt!(cx, rng, Named, Tup, Newtype, NewtypeS, NewtypeOfStruct, Unit, E, UnitOnly, Deep, Vec<Newtype>, BTreeMap<String, Newtype>, (Newtype, NewtypeS), Option<NewtypeOfStruct>, Holder<E>, Holder<Option<Deep>>);
+        {
+            use std::net::{Ipv4Addr, Ipv6Addr, SocketAddrV6};
+            rt!(cx, rng, Ipv6Addr, Vec<Ipv6Addr>, (Ipv6Addr, Ipv6Addr), BTreeMap<String, Ipv6Addr>, Vec<Ipv4Addr>, Vec<SocketAddrV6>, Hex32, Vec<Hex32>, Holder<(Hex32, Hex32)>, BTreeMap<Hex32, i32>, Vec<Stamp>, (Stamp, Stamp, Hex32), Peers, Vec<Peers>, Option<Hex32>, BTreeMap<i8, Hex32>);
+        }
         // ---- a key that is not a string, integer or bool must be refused, not altered
         for bk in [BadKey::Float, BadKey::Tuple, BadKey::Struct, BadKey::Unit, BadKey::NoneK, BadKey::Bytes, BadKey::Seq, BadKey::MapK, BadKey::NewtypeVariant, BadKey::SomeFloat, BadKey::F32] {
             let m = MapOf(vec![(bk, 1)]);
